@@ -395,7 +395,7 @@ theorem exclStep_noBW {wk : K} {isWild : K → Bool} {bm sm : List (Found K)}
     (hb : ∀ f ∈ bm, f.user ≠ wk) (fu : Found K) :
     exclStep wk isWild bm sm fu =
       if (sm.any (fun f => decide (f.user = wk)) || (sm.find? (fun s => decide (s.user = fu.user))).isSome) = true then
-        [{ user := fu.user, status := (subStatus sm fu.user).flip }]
+        [{ user := fu.user, status := (subStatus sm fu.user).minus fu.status }]
       else [{ user := fu.user, status := fu.status }] := by
   have h1 : bm.any (fun f => decide (f.user = wk)) = false := by
     rw [List.any_eq_false]; intro f hf; simpa using hb f hf
@@ -403,8 +403,8 @@ theorem exclStep_noBW {wk : K} {isWild : K → Bool} {bm sm : List (Found K)}
   simp only [h1, Bool.false_eq_true, if_false]
   split
   · cases hfind : sm.find? (fun s => decide (s.user = fu.user)) with
-    | none => simp [Status.flip]
-    | some s => cases hst : s.status <;> simp [hst, Status.flip]
+    | none => simp [Status.minus]
+    | some s => cases hst : s.status <;> simp [hst, Status.minus]
   · rfl
 
 /-- the base holds the wildcard: first case of the table, entry by entry -/
@@ -511,9 +511,8 @@ theorem MapInv.hasWk {wk : K} {isWild : K → Bool} {m : List (Found K)} (h : Ma
   · rintro ⟨f, hf, hu, _⟩; exact ⟨f, hf, hu⟩
   · rintro ⟨f, hf, hu⟩; exact ⟨f, hf, hu, h.wkHas f hf hu⟩
 
-/-- the four notes of `expandExclusion`, unpacked -/
+/-- the notes of `expandExclusion`, unpacked -/
 structure ExclClean (wk : K) (bm sm : List (Found K)) : Prop where
-  flip : (∀ f ∈ bm, f.user ≠ wk) → ∀ fu ∈ bm, fu.status = .no → noK sm fu.user = false
   wildHas : (∃ f ∈ bm, f.user = wk) → (∀ s ∈ sm, s.user ≠ wk) → ∀ fu ∈ bm, fu.status = .no → hasK sm fu.user = true
   wildFlip : (∃ f ∈ bm, f.user = wk) → ∀ fu ∈ bm, fu.status = .no → noK sm fu.user = false
   exclB : ∀ k, exclK bm k = true → noK bm k = true
@@ -523,20 +522,12 @@ theorem exclClean_of_notes {wk : K} {bm sm : List (Found K)} (hn : exclNotes wk 
     (hexB : ∀ k, exclK bm k = true → noK bm k = true) (hexS : ∀ k, exclK sm k = true → noK sm k = true) :
     ExclClean wk bm sm := by
   unfold exclNotes at hn
-  obtain ⟨h12, h3⟩ := List.append_eq_nil_iff.mp hn
-  obtain ⟨h1, h2⟩ := List.append_eq_nil_iff.mp h12
-  have n1 := noteIf_nil h1
+  obtain ⟨h2, h3⟩ := List.append_eq_nil_iff.mp hn
   have n2 := noteIf_nil h2
   have n3 := noteIf_nil h3
   have anyF : ∀ (m : List (Found K)), (∀ f ∈ m, f.user ≠ wk) → m.any (fun f => decide (f.user = wk)) = false := by
     intro m h; rw [List.any_eq_false]; intro f hf; simpa using h f hf
-  refine ⟨?_, ?_, ?_, hexB, hexS⟩
-  · intro hb fu hfu hst
-    rw [anyF bm hb] at n1
-    simp only [Bool.not_false, Bool.true_and] at n1
-    have := List.any_eq_false.mp n1 fu hfu
-    simp only [hst, decide_true, Bool.true_and] at this
-    exact bool_false_of_not this
+  refine ⟨?_, ?_, hexB, hexS⟩
   · intro hb hs fu hfu hst
     rw [any_user_iff.mpr hb, anyF sm hs] at n2
     simp only [Bool.not_false, Bool.true_and] at n2
@@ -725,7 +716,7 @@ theorem covers_exclR {wk : K} {isWild : K → Bool} {bm sm : List (Found K)} (hw
     -- entries for `k`
     have outK : hasK (exclR wk isWild bm sm) k = true ↔ ∃ fu ∈ bm, fu.user = k ∧
         (if (sm.any (fun f => decide (f.user = wk)) || (sm.find? (fun s => decide (s.user = k))).isSome) = true then
-          (subStatus sm k).flip = .has else fu.status = .has) := by
+          (subStatus sm k).minus fu.status = .has else fu.status = .has) := by
       rw [hasK_iff]
       unfold exclR
       constructor
@@ -745,7 +736,7 @@ theorem covers_exclR {wk : K} {isWild : K → Bool} {bm sm : List (Found K)} (hw
         subst hfuk
         by_cases hcnd : (sm.any (fun f => decide (f.user = wk)) || (sm.find? (fun s => decide (s.user = fu.user))).isSome) = true
         · rw [if_pos hcnd] at hcase
-          refine ⟨{ user := fu.user, status := (subStatus sm fu.user).flip }, List.mem_flatMap.mpr ⟨fu, hfu, ?_⟩, rfl, hcase⟩
+          refine ⟨{ user := fu.user, status := (subStatus sm fu.user).minus fu.status }, List.mem_flatMap.mpr ⟨fu, hfu, ?_⟩, rfl, hcase⟩
           rw [step, if_pos hcnd]; exact List.mem_singleton.mpr rfl
         · rw [if_neg hcnd] at hcase
           refine ⟨{ user := fu.user, status := fu.status }, List.mem_flatMap.mpr ⟨fu, hfu, ?_⟩, rfl, hcase⟩
@@ -762,23 +753,19 @@ theorem covers_exclR {wk : K} {isWild : K → Bool} {bm sm : List (Found K)} (hw
         have hnh : hasK sm k = false := bool_false_of_not (fun h => by
           have := (hasK_uniq is.uniq hs).mp (hsk ▸ h); rw [hst] at this; cases this)
         constructor
-        · rintro ⟨fu, hfu, hfuk, _⟩
-          refine ⟨?_, fun h => ?_⟩
-          · cases hfs : fu.status with
-            | has => exact hasK_iff.mpr ⟨fu, hfu, hfuk, hfs⟩
-            | no =>
-              have := hc.flip hb fu hfu hfs
-              rw [hfuk, hno] at this; cases this
-          · rcases h with h | ⟨_, h⟩
-            · rw [hnh] at h; cases h
-            · rw [hno] at h; cases h
+        · rintro ⟨fu, hfu, hfuk, hfs⟩
+          simp only [Status.minus] at hfs
+          refine ⟨hasK_iff.mpr ⟨fu, hfu, hfuk, hfs⟩, fun h => ?_⟩
+          rcases h with h | ⟨_, h⟩
+          · rw [hnh] at h; cases h
+          · rw [hno] at h; cases h
         · rintro ⟨hbk, _⟩
-          obtain ⟨fu, hfu, hfuk, _⟩ := hasK_iff.mp hbk
-          exact ⟨fu, hfu, hfuk, rfl⟩
+          obtain ⟨fu, hfu, hfuk, hfs⟩ := hasK_iff.mp hbk
+          exact ⟨fu, hfu, hfuk, by simp only [Status.minus]; exact hfs⟩
       | has =>
         have hh : hasK sm k = true := hsk ▸ (hasK_uniq is.uniq hs).mpr hst
         constructor
-        · rintro ⟨_, _, _, h⟩; simp [Status.flip] at h
+        · rintro ⟨_, _, _, h⟩; simp [Status.minus] at h
         · rintro ⟨_, hns⟩; exact absurd (.inl hh) hns
     · have hks' : ∀ s ∈ sm, s.user ≠ k := fun s hs h => hks ⟨s, hs, h⟩
       have hfind : sm.find? (fun x => decide (x.user = k)) = none := find_none_iff.mpr hks'
@@ -791,7 +778,7 @@ theorem covers_exclR {wk : K} {isWild : K → Bool} {bm sm : List (Found K)} (hw
         have hany : sm.any (fun f => decide (f.user = wk)) = true := any_user_iff.mpr hsw
         simp only [hany, if_true]
         constructor
-        · rintro ⟨_, _, _, h⟩; simp [Status.flip] at h
+        · rintro ⟨_, _, _, h⟩; simp [Status.minus] at h
         · rintro ⟨_, hns⟩; exact absurd (.inr ⟨hSW, hnn⟩) hns
       · have hsw' : ∀ s ∈ sm, s.user ≠ wk := fun s hs h => hsw ⟨s, hs, h⟩
         have hnSW : hasK sm wk = false := hasK_absent hsw'
